@@ -27,8 +27,8 @@ import time
 from pathlib import Path
 from typing import Any, Callable, Iterable, Sequence
 
-VERIF = Path('/verif')
-REPO = Path('/repo')
+VERIF = Path(os.environ.get('VERIF_ROOT', '/verif'))
+REPO = Path(os.environ.get('VERIF_REPO', '/repo'))
 SRC = REPO / 'src' / 'srctools'
 ROCQ = VERIF / 'rocq'
 GEN = ROCQ / 'Gen'
@@ -351,8 +351,7 @@ def _lock():
 
 def coq_files() -> list[str]:
     files = sorted(str(p.relative_to(ROCQ)) for p in ROCQ.rglob('*.v') if 'Gen/' not in str(p.relative_to(ROCQ)))
-    from translate.registry import GEN as _REG
-    gens = sorted(_REG)
+    gens = sorted(discover_translators())
     return files + [f'Gen/{g}.v' for g in gens]
 
 
@@ -421,6 +420,17 @@ def load_known() -> dict:
     if KNOWN.exists():
         return json.loads(KNOWN.read_text())
     return {'known': [], 'fixed': []}
+
+
+def discover_translators() -> dict:
+    """Every translate/c*.py module exports GEN = {'<Name>_gen': function}; collect them."""
+    import importlib
+    reg = {}
+    for p in sorted((VERIF / 'translate').glob('c*.py')):
+        mod = importlib.import_module('translate.' + p.stem)
+        for name, fn in getattr(mod, 'GEN', {}).items():
+            reg[name] = fn
+    return reg
 
 
 # ---------------------------------------------------------------------- Coq literal printers
